@@ -268,10 +268,17 @@ Definition judge_indexseq (c o : sexp) : verdict :=
     | Some pre, Some sq, Some operr, Some g =>
       if negb (String.eqb operr "") then VOk false "indexseq:operr" else
       if negb (wf g && Nat.leb 2 (degree g) && distinct_sorted (ssort (leaves g))) then VOk false "indexseq:degenerate" else
-      let has_bits := str_in sq ["reinit"; "three"; "three_hashes"] || str_in pre ["reinit"; "reinit_reroot"] in
-      let has_counts := str_in sq ["reinit"; "three_hashes"] || negb (String.eqb pre "none") in
-      let has_hashes := str_in sq ["reinit"; "three_hashes"] || (str_in sq ["tipindex"; "nothing"] && negb (String.eqb pre "none")) in
-      let has_ids := negb (String.eqb sq "nothing") || str_in pre ["reinit"; "reinit_reroot"] in
+      (* [stale]: the pre-history is a public edit that touches the tip-name index (on a fully indexed
+         tree); what it leaves in the tables is not specified, only what the indexing step re-establishes *)
+      let stale := str_in pre ["insert_one"; "insert_many"; "graft_tip"; "graft_tree"; "removetips"; "rename"; "setname"; "shuffle"] in
+      let has_bits := str_in sq ["reinit"; "three"; "three_hashes"] || (negb stale && str_in pre ["reinit"; "reinit_reroot"]) in
+      let has_counts := str_in sq ["reinit"; "three_hashes"] || (negb stale && negb (String.eqb pre "none")) in
+      let has_hashes := str_in sq ["reinit"; "three_hashes"]
+                        || (negb stale && str_in sq ["tipindex"; "nothing"] && negb (String.eqb pre "none")) in
+      let zero_hashes := negb has_hashes && (negb stale || String.eqb sq "three") in
+      let has_ids := negb (String.eqb sq "nothing") || (negb stale && str_in pre ["reinit"; "reinit_reroot"]) in
+      let known_bits := negb stale || has_bits in
+      let known_counts := negb stale || has_counts in
       match (x <- get "tips" o ;; dec_list (dec_pair dec_string dec_nat) x), (x <- get "edges" o ;; dec_list dec_grow2 x) with
       | Some gt, Some ge =>
         let all := ssort (leaves g) in
@@ -309,7 +316,7 @@ Definition judge_indexseq (c o : sexp) : verdict :=
           (if has_ids then first_some (map (oracle_tip all) gt) else None);
           (* comparisons: a tree whose hashes are computed against a fully indexed copy; a tree indexed
              by the three calls (hash codes 0) against a copy indexed the same way *)
-          (if has_bits then if has_hashes then matrix "full" else matrix "three" else None) ] in
+          (if has_bits then if has_hashes then matrix "full" else if zero_hashes then matrix "three" else None else None) ] in
         match orc with
         | Some m => VOracle m
         | None =>
@@ -318,18 +325,20 @@ Definition judge_indexseq (c o : sexp) : verdict :=
               let hr := if has_hashes then r_hright m else 0%N in
               let nl := if has_counts then r_nleft m else 0 in
               let nr := if has_counts then r_nright m else 0 in
-              if negb (match g2_bits r with Some b => has_bits && bits_eqb (r_bits m) b | None => negb has_bits end) then Some "bitset presence / content"
-              else if negb (Z.eqb (g2_nr r) (Z.of_nat nr)) then Some "ntaxright"
-              else if negb (Z.eqb (g2_nl r) (Z.of_nat nl)) then Some "ntaxleft"
-              else if negb (N.eqb (g2_hr r) hr) then Some "hashcoderight"
-              else if negb (N.eqb (g2_hl r) hl) then Some "hashcodeleft"
-              else if negb (N.eqb (g2_hc r) (hash_code_of nl nr hl hr)) then Some "HashCode"
-              else if negb (Z.eqb (g2_depth r) (if Nat.eqb nl 0 || Nat.eqb nr 0 then (-1)%Z else Z.of_nat (Nat.min nl nr))) then Some "TopoDepth"
+              if known_bits && negb (match g2_bits r with Some b => has_bits && bits_eqb (r_bits m) b | None => negb has_bits end) then Some "bitset presence / content"
+              else if known_counts && negb (Z.eqb (g2_nr r) (Z.of_nat nr)) then Some "ntaxright"
+              else if known_counts && negb (Z.eqb (g2_nl r) (Z.of_nat nl)) then Some "ntaxleft"
+              else if (has_hashes || zero_hashes) && negb (N.eqb (g2_hr r) hr) then Some "hashcoderight"
+              else if (has_hashes || zero_hashes) && negb (N.eqb (g2_hl r) hl) then Some "hashcodeleft"
+              else if ((has_hashes && known_counts) || zero_hashes)
+                      && negb (N.eqb (g2_hc r) (if zero_hashes then 0%N else hash_code_of nl nr hl hr)) then Some "HashCode"
+              else if known_counts && negb (Z.eqb (g2_depth r) (if Nat.eqb nl 0 || Nat.eqb nr 0 then (-1)%Z else Z.of_nat (Nat.min nl nr))) then Some "TopoDepth"
               else None in
           match first_some [
                   first_diff crow 0 rws ge;
                   first_diff (fun name (p : string * nat) =>
-                                if Nat.eqb (snd p) (if has_ids then index_of name all else 0) then None else Some "tip id")
+                                if stale && negb has_ids then None
+                                else if Nat.eqb (snd p) (if has_ids then index_of name all else 0) then None else Some "tip id")
                              0 (tip_names g) gt ] with
           | Some m => VCorr m
           | None => VOk (has_bits || has_counts) "indexseq"
